@@ -212,6 +212,16 @@ def _dom_match(tier, seed):
             a1 = sorted(a1)
         yield dict(args=[np.array(a1, dtype=dt), np.array(a2, dtype=dt), pre])
     yield dict(args=[np.array([1, 2, 2]), np.array([2]), False])
+    yield dict(args=[np.array([1, 2, 2]), np.array([2]), True])
+    yield dict(args=[np.array([1.0, 1.0]), np.array([3.0, 1.0]), True])
+    yield dict(args=[np.array(["a", "a", "b"]), np.array(["b"]), True])
+    # the two arrays need not share a dtype (values are compared, not representations)
+    yield dict(args=[np.array([1, 2, 3]), np.array([2.5, 2.0, -1.0, 3.0]), False])
+    yield dict(args=[np.array([1, 2, 3], dtype="i2"), np.array([2, 65538, 3], dtype="i8"), True])
+    yield dict(args=[np.array([250, 255], dtype="u1"), np.array([-1, 255, -6], dtype="i8"), False])
+    yield dict(args=[np.array(["ab", "b"], dtype="S2"), np.array(["abc", "ab", "b "], dtype="S5"), False])
+    yield dict(args=[np.array(["ab", "b"], dtype="U2"), np.array(["abc", "ab", "bb"], dtype="U5"), True])
+    yield dict(args=[np.array([1.5, 2.0], dtype="f4"), np.array([1.5000001, 2.0, 1.5], dtype="f8"), False])
     yield dict(args=[np.array(["a", "b", "a"]), np.array(["a"]), False])
 
 
